@@ -36,6 +36,10 @@ CLAIMED = {
    text='For each seeded (workload, pipeline single/--multiprocess, method nla/chic, initial state empty/stale-success) a fault-free traced lifetime records the crash-point map; then the fault family is enumerated: a true kill (os._exit in the forked child) at every distinct executed (function,line) of the pipeline functions in 5 occurrence classes, an exception at every I/O seam x call-index class x error, worker exception/loss in every job, and (thorough) real EFBIG via RLIMIT_FSIZE at 24 quantiles. Oracle: status says success only if the output BAM exists, has an EOF block, scans to the end, is coordinate sorted, has a usable index and equals the input primaries. Enumeration over faults, sampling over workloads.',
    note='Trusts: kill = os._exit at Python line granularity of the watched functions (C-level htslib writes are not split); exceptions only at I/O seams; SimPool for worker faults. Power-loss/fsync ordering is outside the statement.',
    tech='deterministic simulation: crash-point enumeration by line-event tracing with os._exit in forked lifetimes, I/O-seam exception plans, simulated worker loss, RLIMIT_FSIZE; post-mortem oracle on the surviving directory'),
+ 'C08': dict(engine='parallel', cat='exploration', design='5 C08',
+   text='The same seeded input BAM (dense libraries, molecules straddling tile edges, sites on tile boundaries, unplaced and invalid fragments) is tagged serially (S), with --multiprocess contig-per-process (P) and twice through the region-tiling API (T: bp_per_segment 30..5000, bp_per_job, fragment_size >= longest fragment, sometimes > segment) under a SimPool of width 1..8 and seeded completion orders. Oracle: multiset of full canonical records (flags, mate fields, every tag except mi/ix) identical across S/P/T; each molecule written by exactly one job, in T the job whose bin contains its site. Sampled inputs/tilings/orders: evidence, not proof.',
+   note='Trusts SimPool and the capture of the CLI-built iterator arguments for the tiling API; margins shorter than a fragment are outside the precondition and not generated.',
+   tech='deterministic simulation: serial vs simulated-pool executions (contig jobs and region tilings) under seeded completion orders, record-level equivalence and per-job ownership oracle'),
 }
 NA = {
  'C02': 'Pure function of (strategy layout, read pair): fixed slices of two strings; no stream state, schedule, clock, fault or history for a simulator to choose.',
